@@ -247,23 +247,32 @@ func (r *WordRenderer) renderList(node *ast.List) (ast.WalkStatus, error) {
 
 // renderListItem 渲染列表项
 func (r *WordRenderer) renderListItem(node *ast.ListItem) (ast.WalkStatus, error) {
-	// 检查是否包含任务复选框
-	hasTaskCheckBox := false
-	for child := node.FirstChild(); child != nil; child = child.NextSibling() {
-		if _, ok := child.(*extast.TaskCheckBox); ok {
-			hasTaskCheckBox = true
-			break
+	// 检查是否包含任务复选框：复选框是列表项第一个文本块的第一个内联子节点
+	var taskBox *extast.TaskCheckBox
+	if first := node.FirstChild(); first != nil {
+		if cb, ok := first.FirstChild().(*extast.TaskCheckBox); ok {
+			taskBox = cb
 		}
-	}
-
-	// 如果包含任务复选框且启用了任务列表，让TaskCheckBox节点处理
-	if hasTaskCheckBox && r.opts.EnableTaskList {
-		// 任务列表项将由TaskCheckBox节点处理
-		return ast.WalkContinue, nil
 	}
 
 	// 普通列表项处理
 	text := r.extractTextContent(node)
+
+	// 任务列表项：显示复选框状态
+	if taskBox != nil {
+		box := "☐ "
+		if taskBox.IsChecked {
+			box = "☑ "
+		}
+		if !r.opts.EnableTaskList {
+			// 未启用任务列表时保留原始标记
+			box = "[ ] "
+			if taskBox.IsChecked {
+				box = "[x] "
+			}
+		}
+		text = box + strings.TrimLeft(text, " ")
+	}
 
 	// 简单的列表项处理，后续可以扩展为真正的列表格式
 	// 这里暂时使用缩进和符号来模拟列表
